@@ -38,6 +38,11 @@ LIST_HELPER_EXPRS = [
     "(('Hello World' in r.sl) and field_equals(r, ['sl'], ['zzz']))", "field_regex(r, ['sl'], 'a')",
 ]
 
+TYPE_MATCHER_EXPRS = [
+    "(Type.string == 'hello')", "('a' in Type.string)", "(Type.string != '')", "(Type.varint > 1)", "(Type.string == r.s)",
+    "any(w in Type.string for w in ['a', 'foo'])", "((Type.string == 'foo') or (Type.varint == 3))", "(Type.string == 'tagged')",
+]
+
 ENGINE_SENSITIVE_EXPRS = [
     "((r.opt < 'b') or (r.s2 not in ['zzz']))", "((r.opt >= 'a') or (r.extra not in ['zzz']))",
     "((r.s2 not in ['zzz']) or (r.opt < 'b'))", "((r.opt < 'b') or (r.m not in [999]))",
@@ -66,7 +71,11 @@ def case_strategy(draw):
     for _ in range(n):
         v = draw(selgen.record_values())
         second = adapter in ("stream", "jsonfile", "sqlite") and draw(st.integers(0, 3)) == 0
-        if adapter in ("stream", "jsonfile"):
+        if adapter == "stream" and draw(st.integers(0, 5)) == 0:
+            # grouped records of two compositions under one group name (all grouped records are one Python class)
+            recs.append({"v": {k: v[k] for k in ("s", "s2", "n", "src", "cls")}, "second": False, "full": False,
+                         "grouped": draw(st.integers(0, 1))})
+        elif adapter in ("stream", "jsonfile"):
             recs.append({"v": v, "second": second, "full": True})
         else:
             recs.append({"v": {k: v[k] for k in ("s", "s2", "opt", "n", "m", "f", "b", "size", "src", "cls")}, "second": second,
@@ -87,7 +96,11 @@ def case_strategy(draw):
         expr = {"src": draw(st.sampled_from(FIELDS_HELPER_EXPRS)), "features": ["helper:fields"]}
         form = draw(st.sampled_from(["text", "interpreted"]))
     perm = draw(st.permutations(list(range(n))))
-    return {"adapter": adapter, "recs": recs, "expr": expr, "form": form, "perm": perm}
+    if draw(st.integers(0, 9)) == 0:
+        expr = {"src": draw(st.sampled_from(TYPE_MATCHER_EXPRS)), "features": ["type-matcher"]}
+    # the source may be named by a URL with query options (reader options, or options the reader ignores)
+    rq = draw(st.sampled_from([None, None, "x=1", "batch_size=2", "batch_size=1&x=y"]))
+    return {"adapter": adapter, "recs": recs, "expr": expr, "form": form, "perm": perm, "rq": rq}
 
 
 def make_sel(form, src):
@@ -129,7 +142,18 @@ def check(case, ctx):
     records = []
     for r in case["recs"]:
         v = r["v"]
-        if r["second"]:
+        if r.get("grouped") is not None:
+            from flow.record import GroupedRecord
+
+            da = RecordDescriptor("sel/ga", [("varint", "n")])
+            db = RecordDescriptor("sel/gb", [("string", "tag"), ("string", "s2")])
+            m2 = d2(v["s"], v["n"], v["s2"], _generated=selgen.GEN, _source=v.get("src"), _classification=v.get("cls"))
+            if r["grouped"] == 0:
+                records.append(GroupedRecord("sel/grp", [m2, da(v["n"], _generated=selgen.GEN)]))
+            else:
+                records.append(GroupedRecord("sel/grp", [db("tagged", v["s2"], _generated=selgen.GEN), da(v["n"], _generated=selgen.GEN)]))
+            ctx.cls("grouped-composition:%d" % r["grouped"])
+        elif r["second"]:
             records.append(d2(v["s"], v["n"], v["s2"], _generated=selgen.GEN, _source=v.get("src"),
                               _classification=v.get("cls")))
         elif r.get("full"):
@@ -175,6 +199,8 @@ def check(case, ctx):
         # selgen-shaped records of stream/json the reference evaluator must agree with the post-filter
         if exc_after is None and adapter == "stream":
             for r, m in zip(plain, results):
+                if hasattr(r, "records"):
+                    continue
                 if len(r._desc.get_field_tuples()) != len(selgen.SEL_FIELDS) and selgen.DROPPED_IN_FEWER.search(src):
                     continue
                 ref = impl(selgen.reference_eval, src, r)
@@ -186,7 +212,13 @@ def check(case, ctx):
             if observe(r) != untouched[i]:
                 raise Violation("purity/record-modified", "%s [%s]: matching changed record %d: %s"
                                 % (src, form, i, diff(untouched[i], observe(r))))
-        during, exc_during = iterate(lambda: RecordReader(url, selector=make_sel(form, src)))
+        rurl = url
+        if case.get("rq"):
+            scheme = {"stream": "stream", "jsonfile": "jsonfile", "jsonfile-plain": "jsonfile", "avro": "avro",
+                      "csvfile": "csvfile", "sqlite": "sqlite"}[adapter]
+            rurl = "%s://%s?%s" % (scheme, url.split("://", 1)[-1], case["rq"])
+            ctx.cls("reader-url-with-query")
+        during, exc_during = iterate(lambda: RecordReader(rurl, selector=make_sel(form, src)))
         # what a reader yields under a selector is the stored record, not one the selector has worked on
         by_obs = {}
         for o in untouched:
